@@ -57,6 +57,7 @@ _CACHE: dict = {}
 def st_case(draw):
     fam = draw(st.sampled_from(["Z2x2", "Z2x2", "Cubic1"]))
     spec = draw(zp.st_z2x2(delta_range=(0.04, 0.13))) if fam == "Z2x2" else draw(zp.st_cubic1(delta_range=(0.1, 0.5), min_alpha=2e-3))
+    spec = zp.with_guess(spec, draw(zp.st_guess()))
     u = draw(st.one_of(st.sampled_from([-2.0, -1.0, 1.0, 2.0, -2.0, 2.0]),
                        st.floats(-2.0, 2.0).map(lambda x: round(x, 2))))
     setting = draw(st.sampled_from(["default", "default", "tight"]))
@@ -96,7 +97,9 @@ def check_case(case) -> Verdict:
     except Exception:  # noqa: BLE001
         weak = False
     cls = f"{fam} {ubin} {setting}" + (" weak" if weak else "")
-    v.label(f"family:{fam}", f"ubin:{ubin}", f"setting:{setting}", "strength:weak" if weak else "strength:normal")
+    v.label(f"family:{fam}", f"ubin:{ubin}", f"setting:{setting}", "strength:weak" if weak else "strength:normal",
+            "guess:rough" if case["spec"].get("guess") else "guess:exact",
+            f"fscale_factor:{case['spec'].get('fscale_factor', 1.0)}")
     A = _run(spec1, cfg)
     if A.get("timeout"):
         v.discarded("timeout (inconclusive)")
